@@ -199,9 +199,9 @@ func VerifH_C05_L3_admission() {
 	n := 2
 	interference := 1
 	if vz.Thorough() {
-		// (three Jobs with two concurrent finishes are explored by VerifH_C06_fifo3 on the
-		// policies where the order of starts matters; the full product is out of reach)
-		n = 3
+		// (three Jobs are explored by VerifH_C06_fifo3 on the policies where the order of
+		// starts matters; the full product with three Jobs did not finish within 45 minutes)
+		interference = 2
 	}
 	env, ctx := verifSetupQueue(n, interference)
 	env.verifRunAdmission(ctx)
